@@ -64,6 +64,8 @@ pub enum Op {
     CallDupSerial,
     /// subscribe without serial
     SubscribeNoSerial,
+    /// a reply whose serial is guessed (the broker numbers calls sequentially)
+    ReplyGuess,
     /// any of the 63 kinds from upstream's Arbitrary derive, ids partly redirected to live and
     /// stale pools, payload well-formed or garbage
     Arbitrary,
@@ -103,6 +105,8 @@ pub struct Gen {
     pub seen_callee_serials: Vec<(usize, u32)>,
     pub type_pool: Vec<Uuid>,
     force: Option<usize>,
+    /// highest broker-chosen call serial observed so far (real value), for guessing
+    pub max_real_serial: u32,
 }
 
 pub fn pool_uuid(space: u8, i: usize) -> Uuid {
@@ -126,6 +130,7 @@ impl Gen {
             seen_callee_serials: Vec::new(),
             type_pool: (0..3).map(|i| pool_uuid(9, i)).collect(),
             force: None,
+            max_real_serial: 0,
         }
     }
 
@@ -670,6 +675,11 @@ impl Gen {
                 }
                 self.rng.pick(&ok).clone()
             }
+            Op::ReplyGuess => {
+                let serial = if self.rng.chance(1, 4) { self.rng.next_u32() % 16 } else { (self.max_real_serial + self.rng.next_u32() % 4).saturating_sub(1) };
+                let result = if self.rng.bool() { CallFunctionResult::Ok(self.payload(v)) } else { CallFunctionResult::InvalidArgs };
+                CallFunctionReply { serial, result }.into()
+            }
             Op::Arbitrary => {
                 use arbitrary::{Arbitrary, Unstructured};
                 let n = 24 + self.rng.below(200);
@@ -709,8 +719,11 @@ impl Gen {
                 }
                 if let Some((space, s)) = super::msgmap::broker_serial_in(&mut msg) {
                     let pend: Vec<u32> = if space == 0 { m.calls.values().map(|k| k.callee_serial).collect() } else { m.intro.values().filter_map(|e| e.asked.map(|(_, s)| s)).collect() };
-                    if !pend.is_empty() && self.rng.chance(2, 3) {
+                    if !pend.is_empty() && self.rng.chance(1, 2) {
                         *s = *self.rng.pick(&pend);
+                    } else if self.rng.chance(2, 3) {
+                        // guessing: the broker numbers its serials sequentially
+                        *s = if self.rng.bool() { self.rng.next_u32() % 24 } else { (self.max_real_serial + self.rng.next_u32() % 4).saturating_sub(1) };
                     }
                 }
                 // uuids of objects / services from the pool, so that creations collide
